@@ -352,3 +352,98 @@ func literalIs(v ssa.Value, s string) bool {
 	}
 	return false
 }
+
+// sliceBoundOnItsOwnValueRule (contradiction rule): where a function cuts a byte sequence at a position that does not
+// come from that sequence (`enc[:nonceSize]`, `buf[n:]` with n computed elsewhere) and compares that position with
+// the length of *some* sequence ahead of the cut, the compared sequence is the one that is cut. A guard on a related
+// but different value (the text before decoding, the detection path instead of the path) bounds nothing: the two
+// lengths differ exactly for the inputs the guard was written for.
+func sliceBoundOnItsOwnValueRule(r *Run, pkgs ...string) {
+	judged, bad := 0, 0
+	for _, pkg := range pkgs {
+		r.P.AllFuncs(pkg, func(f *ssa.Function) {
+			if len(f.Blocks) == 0 {
+				return
+			}
+			// comparisons of a value with a len(...)
+			type cmp struct {
+				in    *ssa.BinOp
+				bound ssa.Value
+				of    ssa.Value
+			}
+			var cmps []cmp
+			for _, b := range f.Blocks {
+				for _, in := range b.Instrs {
+					bo, ok := in.(*ssa.BinOp)
+					if !ok {
+						continue
+					}
+					switch bo.Op {
+					case token.LSS, token.LEQ, token.GTR, token.GEQ:
+					default:
+						continue
+					}
+					for _, pr := range [][2]ssa.Value{{bo.X, bo.Y}, {bo.Y, bo.X}} {
+						if c, ok := pr[0].(*ssa.Call); ok && len(c.Call.Args) == 1 {
+							if bi, ok := c.Call.Value.(*ssa.Builtin); ok && bi.Name() == "len" {
+								cmps = append(cmps, cmp{bo, pr[1], c.Call.Args[0]})
+							}
+						}
+					}
+				}
+			}
+			if len(cmps) == 0 {
+				return
+			}
+			for _, b := range f.Blocks {
+				for _, in := range b.Instrs {
+					sl, ok := in.(*ssa.Slice)
+					if !ok || !isByteSeq(sl.X.Type()) {
+						continue
+					}
+					for _, bound := range []ssa.Value{sl.Low, sl.High} {
+						if bound == nil {
+							continue
+						}
+						if _, isC := bound.(*ssa.Const); isC {
+							continue
+						}
+						// a position measured on the sequence itself (an index search, its length) is bounded by construction
+						if dependsOn(bound, func(v ssa.Value) bool { return sameValue(v, sl.X) }) != nil {
+							continue
+						}
+						own, other := false, (*cmp)(nil)
+						for i := range cmps {
+							c := &cmps[i]
+							if !sameValue(c.bound, bound) {
+								continue
+							}
+							if !(c.in.Block() == b || dom(c.in.Block(), b)) {
+								continue
+							}
+							if sameValue(c.of, sl.X) {
+								own = true
+							} else if isByteSeq(c.of.Type()) {
+								other = c
+							}
+						}
+						if !own && other == nil {
+							continue // the function states no bound for this cut: not judged here
+						}
+						judged++
+						if !own {
+							bad++
+							r.bad(short(f.String())+":cut-bounded-on-the-value-that-is-cut", r.pos(in),
+								fmt.Sprintf("the sequence is cut at a position that was compared with the length of another value (%s) only: when the two lengths differ — the text before decoding is longer than the decoded bytes — the cut is out of range and the request panics", r.pos(other.in)))
+						}
+					}
+				}
+			}
+		})
+	}
+	r.count("cuts at a foreign position with a length guard in the same function", judged)
+	r.atLeast("judged cuts", judged, 1)
+	if bad == 0 {
+		r.ok("cut-bounded-on-the-value-that-is-cut", "", fmt.Sprintf("%d cuts, each guarded by a comparison with the length of the value that is cut", judged))
+	}
+}
